@@ -46,6 +46,7 @@ type World struct {
 	retSum    map[*FuncInfo]ocls
 	retObj    map[*FuncInfo]psrc
 	pendingPreserves []*FuncInfo
+	rePats    map[*types.Var]string
 	mutParams map[*FuncInfo]map[int]bool // parameters (receiver excluded) whose map/slice content the function writes in place
 }
 
